@@ -187,6 +187,12 @@ def neg_row(v, s, k, trace=None):
 SUB_ROWS = [r for r in COMP_ROWS if r[3] >= 0]
 CMP_ROWS = [r for r in COMP_ROWS if r[3] < 0]
 NF, NCM, NSB = len(FIELD_ROWS), len(CMP_ROWS), len(SUB_ROWS)
+# negative lookups depend on the segment, not on the field: first, middle and last field row of every segment
+_by_seg = {}
+for _r in FIELD_ROWS:
+    _by_seg.setdefault(_r[:2], []).append(_r)
+NEG_ROWS = sorted({x for rows in _by_seg.values() for x in (rows[0], rows[len(rows) // 2], rows[-1])})
+NNEG = len(NEG_ROWS)
 
 
 def _ob_field(r: int) -> bool:
@@ -233,14 +239,14 @@ def _ob_sub(r: int) -> bool:
 
 def _ob_neg(r: int) -> bool:
     """
-    pre: 0 <= r < NF
+    pre: 0 <= r < NNEG
     pre: in_part(r)
     post: _
     """
-    r = bsearch(r, NF)
+    r = bsearch(r, NNEG)
     with concrete():
         reset_defaults()
-        vi, si, k = FIELD_ROWS[r]
+        vi, si, k = NEG_ROWS[r]
         v = T.VERSIONS[vi]
         return neg_row(v, T.SEGS[v][si], k)
 
@@ -311,7 +317,7 @@ def explain(call):
             v = T.VERSIONS[vi]
             field_alias(v, T.SEGS[v][si], k, tr)
         elif m.group(1) == '_ob_neg':
-            vi, si, k = FIELD_ROWS[r]
+            vi, si, k = NEG_ROWS[r]
             v = T.VERSIONS[vi]
             tr.append('%s %s row %d' % (v, T.SEGS[v][si], k))
             neg_row(v, T.SEGS[v][si], k, tr)
@@ -345,9 +351,9 @@ SPEC = {
          'bound': 'ALL %d component rows x {name, long name, positional} x 3 cases x {read, write, delete}' % NCM},
         {'name': 'A.subs', 'fn': '_ob_sub', 'parts': 16, 'cond_timeout': 1500, 'path_timeout': 60,
          'bound': 'ALL %d subcomponent rows x {name, long name, positional path from the field} x 3 cases' % NSB},
-        {'name': 'N.neg', 'fn': '_ob_neg', 'parts': 48, 'cond_timeout': 1500, 'path_timeout': 60,
-         'bound': 'for ALL %d field rows: 6 names that designate no child (other segment\'s field, index n+1, index 0, malformed '
-                  'paths, unknown long name) x {read, write, delete} -> ChildNotFound/ChildNotValid, parent unchanged' % NF},
+        {'name': 'N.neg', 'fn': '_ob_neg', 'parts': 16, 'cond_timeout': 1500, 'path_timeout': 60,
+         'bound': 'for 3 field rows of EVERY segment (%d rows): 6 names that designate no child (other segment\'s field, index n+1, index 0, malformed '
+                  'paths, unknown long name) x {read, write, delete} -> ChildNotFound/ChildNotValid, parent unchanged' % NNEG},
         {'name': 'D.longnames', 'engine': 'E3', 'worker': '_e3_longnames',
          'bound': 'z3 per parent table: rows whose long name is not unique (excluded from the long-name spellings)'},
     ],
